@@ -169,3 +169,15 @@ Definition modelled_pinned_code : list ((string * string * string) * string) := 
     "ifraw.size_of_image==0||raw.size_of_imageasu64>(u64::MAX-raw.base_of_image){returnErr(Error::ModuleReadFailure);}"),
    "Unloaded.u_bad / unloaded_list_read")
 ].
+
+(* ---- the thread_local print context (SERIALIZATION_CONTEXT: the pointer width every printed address is formatted with).  It is
+   per OS thread and outlives a report, so the ONLY reason the bytes of a report do not depend on what the printing thread did before
+   (another dump of the other width; nothing at all, on a fresh thread) is that every public printer stores the width of ITS state as
+   its first statement, before the single reader (Display for Address) can run in the same synchronous call.  A writer that is not
+   a printer (the state builder, say) or a printer that no longer begins with the call changes this list (seeded change C13-9) *)
+Definition modelled_print_context_sites : list ((string * string * string) * site_class) := [
+  (("processor/process_state.rs", "print_internal", "call|first statement"), SetBeforeUse);
+  (("processor/process_state.rs", "print_json", "call|first statement"), SetBeforeUse);
+  (("processor/process_state.rs", "fmt", "read:SERIALIZATION_CONTEXT.with(|ctx|ctx.borrow().pointer_width.unwrap_or(PointerWidth::Unknown))"), SetBeforeUse);
+  (("processor/process_state.rs", "set_print_context", "write:SERIALIZATION_CONTEXT.with(|ctx|{ctx.borrow_mut().pointer_width=Some(self.system_info.cpu.pointer_width());})"), SetBeforeUse)
+].
